@@ -99,6 +99,7 @@ func checkC05(r *Run) {
 	r.Rule("C05.R2.GUARD", "control-plane state (region.curr/gates/counter/timeRange, Gate.authority, Controller.regions) is accessed under its lock", 20)
 	r.Rule("C05.R2.atomic", "Controller.remove decides emptiness and removes the region inside one Controller.mu write section; Gate.position is taken from region.counter, which only ever increases", 3)
 	r.Rule("C05.R4.rejected", "idxWriter.write advances the index high-water mark before authorization, so every path on which a write was rejected as ErrUnauthorized resets hasUncommittedData before returning", 1)
+	r.Rule("C05.R5.range", "region.open admits a gate (returns it with a nil error) only on paths that stored the union of the region's range with the gate's range: OpenGate decides by range overlap whether a new gate contends with the holder, so a gate admitted without growing the region lets a later writer open a second region - and be in control - over part of the holder's range", 1)
 	r.Rule("C05.ERR", "in the cesium writer/control code no error is discarded, replaced inside its own failure branch, or accumulated over a loop from a possibly-nil value (an ErrUnauthorized of one index group must survive the groups written after it)", 1)
 	r.Rule("C05.R3.transfers", "every call in package cesium that yields a control.Transfer or ControlUpdate binds it, appends it to a ControlUpdate on the success/Occurred path and forwards that update (updateControlDigests / updateDBControl / return); discards only where tabled", 10)
 
@@ -107,6 +108,7 @@ func checkC05(r *Run) {
 	checkControlAtomic(r, p, la)
 	checkTransfers(r, p)
 	checkRejectedWrite(r, p)
+	checkRegionRange(r, p)
 	checkErrDrop(r, p, "C05.ERR", func(fn *FuncNode) bool {
 		return fn.InPkgs("cesium") && !fn.InPkgs("cesium/internal/testutil", "cesium/internal/domain", "cesium/internal/index", "cesium/internal/meta", "cesium/internal/migrate")
 	}, 300)
@@ -750,4 +752,49 @@ func checkTransfers(r *Run, p *Prog) {
 	if nAcc < 4 {
 		r.Undecide("C05.R3: only %d accumulating ControlUpdate variables found (expected >= 4)", nAcc)
 	}
+}
+
+// checkRegionRange decides C05.R5.
+func checkRegionRange(r *Run, p *Prog) {
+	fn := p.Func(ctlPkg, "region", "open")
+	fld := p.FieldOf(ctlPkg, "region", "timeRange")
+	if fn == nil || fld == nil {
+		r.Undecide("C05.R5: region.open / region.timeRange not found")
+		return
+	}
+	c := p.CFG(fn)
+	isUnionStore := func(n ast.Node) bool {
+		as, ok := n.(*ast.AssignStmt)
+		if !ok || !isStoreTo(fn, n, fld) {
+			return false
+		}
+		union := false
+		for _, rh := range as.Rhs {
+			ast.Inspect(rh, func(y ast.Node) bool {
+				if call, ok := y.(*ast.CallExpr); ok {
+					if f := CalleeFunc(fn, call); f != nil && f.Name() == "Union" {
+						union = true
+					}
+				}
+				return true
+			})
+		}
+		return union
+	}
+	q, vis := c.ReachAvoiding([]Point{c.Entry()}, nil, isUnionStore)
+	ok := len(c.NodesWhere(isUnionStore)) > 0
+	var path []string
+	n := 0
+	for _, ex := range c.Exits() {
+		if ex.Return == nil || !mayReturnNilError(fn, ex.Return) {
+			continue
+		}
+		n++
+		if vis[ex.P] {
+			ok = false
+			path = q.PathTo(ex.P)
+		}
+	}
+	r.ObPath("C05.R5.range", "region.open grows the region's range on every path that admits the gate", p.Position(fn.Pos()), ok && n > 0,
+		"a gate admitted without the union leaves part of its range outside every region: the next writer opened there gets a region of its own and is authorized next to the holder", path)
 }
